@@ -103,6 +103,9 @@ static void run_rows(uint64_t idx, pv_rng* rng) {
     polyseed_data* s = pv_seed_from_model(&m);
     if (!s) { pv_violation("C05/load-failed", "%s", pv_mseed_str(&m)); return; }
     unsigned A = a_i < sizeof BOUNDARY / sizeof *BOUNDARY ? BOUNDARY[a_i] : pv_randn(rng, 2048);
+    /* the wallet may inject its dependencies again at any time (same table): neither the coin binding nor the enabled
+     * features of the seeds that are alive may notice */
+    if (idx % 3 == 1) { pv_inject_default(); PV_COUNT("rows.after_a_second_injection", 1); }
     row(L, &m, s, A, rng, a_i == 5 && seed_i == 0);
     pv_api_free(s);
 }
@@ -157,9 +160,35 @@ static void run_allcoins(uint64_t idx, pv_rng* rng) {
     free(img);
     pv_api_free(s);
 }
+/* the binding while other threads decode their own phrases (no callback lies between the steps of word splitting, so this
+ * relies on real parallelism: 8 threads, many short decodes) */
+static bool conc_iter(pv_rng* r, int iter, void* user, char* err, size_t errsz) {
+    (void)iter; (void)user;
+    pv_mseed m; pv_gen_mseed(r, 7, true, &m);
+    pv_mlang* L; do { L = &pv_langs[pv_randn(r, (uint32_t)pv_nlangs)]; } while (!L->lib || (!strncmp(L->key, "zh", 2) && pv_randn(r, 8)));
+    unsigned A = pv_gen_coin(r);
+    char ph[2048]; pv_m_encode(&m, L, A, ph, sizeof ph);
+    bool ok = true;
+    for (int k = 0; k < 6 && ok; ++k) {
+        unsigned B = k == 0 ? A : (k < 3 ? (A ^ (1u << pv_randn(r, 11))) : pv_randn(r, 2048));
+        polyseed_data* d = NULL; int st = pv_api_decode_explicit(ph, B, L->lib, &d);
+        if (B == A) { if (st != POLYSEED_OK) { ok = false; snprintf(err, errsz, "%s: own coin %u -> %s", L->name_en, A, pv_status_name(st)); } else { uint8_t img[32], mi[32]; pv_api_store(d, img); pv_m_image(&m, mi); if (memcmp(img, mi, 32)) { ok = false; snprintf(err, errsz, "%s coin %u: another seed", L->name_en, A); } } }
+        else if (st != POLYSEED_ERR_CHECKSUM) { ok = false; snprintf(err, errsz, "%s: phrase for coin %u decoded with coin %u -> %s", L->name_en, A, B, pv_status_name(st)); }
+        if (st == POLYSEED_OK) pv_api_free(d);
+    }
+    return ok;
+}
+static uint64_t n_conc(void) { return pv_scaled(3, 100); }
+static void run_conc(uint64_t idx, pv_rng* rng) {
+    (void)idx;
+    enum { NT = 8, IT = 6000 }; static pv_conc_result res[NT];
+    uint64_t seed = pv_rand64(rng);
+    pv_concurrent(NT, IT, seed, 20, conc_iter, NULL, res);
+    if (pv_concurrent_verdict(res, NT, IT, "C05/differs-under-concurrency", "concurrent.rows_ok")) PV_DISTINCT("nontrivial", seed);
+}
 static void fini(void) { pv_set_flag("exhaustive.all_2048x2047_coin_pairs_for_two_seeds", pv.tier == 1);
     pv_set_flag("exhaustive.every_coin_as_own_coin_per_language(one seed)", pv.scale_pct >= 100); }
 int main(int argc, char** argv) {
-    static const pv_section secs[] = { { "rows", n_rows, run_rows }, { "allpairs", n_allpairs, run_allpairs }, { "allcoins", n_allcoins, run_allcoins } };
-    return pv_main(argc, argv, "C05", secs, 3, init, fini);
+    static const pv_section secs[] = { { "rows", n_rows, run_rows }, { "allpairs", n_allpairs, run_allpairs }, { "allcoins", n_allcoins, run_allcoins }, { "concurrent", n_conc, run_conc } };
+    return pv_main(argc, argv, "C05", secs, 4, init, fini);
 }
